@@ -134,8 +134,18 @@ func RunKeyFile(c *Ctx) error {
 					same = p3.Equals(origPub)
 				}
 			}
-			c.Tr.Emit("KExport", world.F{"ok": ok, "same": same})
+			c.Tr.Emit("KExport", world.F{"ok": ok, "same": same, "where": "fresh-dir"})
 		}()
+		// export, then import over what already sits at the destination
+		importOver(c, d, d, pass, origPub, "in-place")
+		os.WriteFile(path, orig, 0o600)
+		for ci, junk := range [][]byte{[]byte("{"), []byte("{}"), []byte(`{"priv_key_encrypted":"AAAA","nonce":"AAAA","pub_key":"AAAA"}`), {}} {
+			dj := filepath.Join(dir, fmt.Sprintf("junk%d-%d", fi, ci))
+			os.MkdirAll(dj, 0o700)
+			os.WriteFile(filepath.Join(dj, "signer.json"), junk, 0o600)
+			importOver(c, d, dj, pass, origPub, fmt.Sprintf("over-junk%d", ci))
+		}
+		os.WriteFile(path, orig, 0o600)
 		// field mutations
 		fields := map[string]*[]byte{"cipher": &kd.PrivKeyEncrypted, "nonce": &kd.Nonce, "salt": &kd.Salt, "pub": &kd.PubKeyBytes}
 		ofields := map[string][]byte{"cipher": od.PrivKeyEncrypted, "nonce": od.Nonce, "salt": od.Salt, "pub": od.PubKeyBytes}
@@ -195,6 +205,8 @@ func RunKeyFile(c *Ctx) error {
 		load(path, "none", "legacy", "right", pass, pub)
 		load(path, "none", "legacy", "wrong", []byte("not the passphrase"), pub)
 		load(path, "none", "legacy", "empty", []byte{}, pub)
+		// export, then import over the legacy file itself
+		importOver(c, d, d, pass, pub, "legacy-in-place")
 		// consistency with the other signer implementation's address derivation
 		ns, _ := noop.NewNoopSigner(priv)
 		a1, _ := ns.GetAddress()
@@ -202,4 +214,40 @@ func RunKeyFile(c *Ctx) error {
 	}
 	c.Count("keyfiles", nfiles+len(passes))
 	return nil
+}
+
+// importOver exports the key stored in src (under pass) and imports it into dst - over whatever file
+// is already there - under a new passphrase; the result must load with the new passphrase, to the same
+// key, and must not load with the old one.
+func importOver(c *Ctx, src, dst string, pass []byte, pub crypto.PubKey, where string) {
+	defer func() {
+		if p := recover(); p != nil {
+			c.Tr.Emit("Panic", world.F{"node": "key", "where": "import-" + where, "msg": trunc(fmt.Sprint(p))})
+		}
+	}()
+	newPass := []byte("the new passphrase")
+	raw, err := filesigner.ExportPrivateKey(src, append([]byte(nil), pass...))
+	ok := err == nil
+	if ok {
+		ok = filesigner.ImportPrivateKey(dst, raw, append([]byte(nil), newPass...)) == nil
+	}
+	same := false
+	if ok {
+		s3, e := filesigner.LoadFileSystemSigner(dst, append([]byte(nil), newPass...))
+		if e == nil {
+			p3, _ := s3.GetPublic()
+			same = p3.Equals(pub)
+			if same {
+				// signatures of the loaded signer verify under the key it reports
+				msg := []byte("verif import check")
+				sig, e2 := s3.Sign(msg)
+				v, e3 := pub.Verify(msg, sig)
+				same = e2 == nil && e3 == nil && v
+			}
+		}
+		if _, e := filesigner.LoadFileSystemSigner(dst, []byte("certainly not the passphrase")); e == nil {
+			same = false
+		}
+	}
+	c.Tr.Emit("KExport", world.F{"ok": ok, "same": same, "where": where})
 }
